@@ -31,7 +31,7 @@ n,suite,w,wo=sys.argv[1:5]
 m=json.load(open(f"/tmp/seedout/{n}/meta.json"))
 m["confirmed"]={"suite_with_patch":suite.strip(),"demo_with_patch":w.strip(),"demo_without_patch":wo.strip(),
   "how":"tools/confirm_seed.sh: git apply on a clean scratch worktree, default + full-feature build, cargo nextest full suite, demo with and without the patch"}
-m["base_commit"]="251f625"
+import subprocess; m["base_commit"]=subprocess.run(["git","-C","/tmp/wt/"+n,"rev-parse","--short","HEAD"],capture_output=True,text=True).stdout.strip()
 json.dump(m,open(f"/verif/seeded/{n}/meta.json","w"),indent=1)
 P
   echo "CONFIRMED $N"
